@@ -2,7 +2,7 @@
 Used by C02, C05, C06, C11, C17, C18."""
 import re
 
-from .core import (Prov, bool_cond_edges, callee_is, constructions, discr_cond_edges, has_origin, origin_strs, selection_blocks,
+from .core import (Prov, bool_cond_edges, callee_is, const_value, constructions, discr_cond_edges, has_origin, origin_strs, selection_blocks,
                    result_switches, root_local, sites_star, first_switches)
 
 TOKEN_ITEM = "fastrace::collector::CollectTokenItem"
@@ -49,7 +49,8 @@ def rule_token_items(ctx, facts, rule, fields=("trace_id", "parent_id", "collect
     cons = [c for c in constructions(facts, TOKEN_ITEM, crates=["fastrace"]) if not EXCLUDE.search(c[0].path)]
     ctx.floor(rule, TOKEN_ITEM, len(cons), 3, "constructions of CollectTokenItem")
     for fn, b, s, f in cons:
-        o = {k: data_origins(prov.of_operand(fn, v)) for k, v in f.items()}
+        # values computed before a `.map(|item| ..)` and captured by it keep their source
+        o = {k: data_origins(prov.resolve_upvars(fn, prov.of_operand(fn, v)) if fn.kind == "Closure" else prov.of_operand(fn, v)) for k, v in f.items()}
         site = fn.loc(b)
         if fn.path == "fastrace::span::Span::root":
             if "trace_id" in fields:
@@ -996,59 +997,83 @@ def rule_extraction_never_gives_up(ctx, facts, rule):
 
 def rule_id_generator(ctx, facts, rule):
     """C02-R7: SpanId::next_id combines the per-thread prefix (high 32 bits) with a counter that is incremented by a
-    non-zero constant and stored back on every call -- the structural part of "distinct ids for distinct spans"."""
+    non-zero constant and stored back on every call -- the structural part of "distinct ids for distinct spans".
+    The per-thread state may be a tuple or a private struct; its components are told apart by what is done with them."""
     prov = Prov(facts)
-    cl = [f for p, f in facts.fns.items() if p.startswith("fastrace::collector::id::SpanId::next_id::{closure#")]
+    NID = "fastrace::collector::id::SpanId::next_id"
+    nid = facts.fn(NID)
+    bodies = ([nid] if nid is not None else []) + (facts.closures_of(nid) if nid is not None else [])
     gen = None
-    for f in cl:
+    for f in bodies:
         if f.calls_re(r"core::cell::Cell::<T>::set$", cleanup=False):
             gen = f
     if gen is None:
-        ctx.fail(rule, "fastrace::collector::id::SpanId::next_id", "-", "the id generator closure exists", "anchor lost: no closure calling Cell::set", extra="gen")
+        ctx.fail(rule, NID, "-", "the id generator (the code that advances the per-thread state) exists", "anchor lost: no Cell::set in next_id or its closures", extra="gen")
         return
     sets = gen.calls_re(r"core::cell::Cell::<T>::set$", cleanup=False)
     gets = gen.calls_re(r"core::cell::Cell::<T>::get$", cleanup=False)
-    ok_set = False
-    detail = ""
-    for b in sets:
+    # components of the state
+    st_ty = gen.term(sets[0])["arg_tys"][1] if sets else ""
+    if st_ty.startswith("("):
+        comps = [".%d" % k for k in range(st_ty.count(",") + 1)]
+    else:
+        adt = facts.adts.get(st_ty)
+        comps = ["." + x["name"] for x in adt["variants"][0]["fields"]] if adt and len(adt["variants"]) == 1 else []
+    ADD = r"<impl u\d+>::(wrapping_add|checked_add|saturating_add)$"
+    counter, prefixes, consts = None, [], []
+    for b in sets[:1]:
         t = gen.term(b)
-        src1 = prov.of_operand(gen, dict(t["args"][1], p=t["args"][1]["p"] + [".1"])) if t["args"][1]["k"] in ("copy", "move") else set()
-        inc = [v for o in src1 for v in o.via if v[0] == "call" and re.search(r"<impl u32>::(wrapping_add|checked_add|saturating_add)$", v[1])]
-        consts = []
-        for v in inc:
-            a = gen.term(v[2])["args"][1]
-            consts.append(a.get("v"))
-        src0 = prov.of_operand(gen, dict(t["args"][1], p=t["args"][1]["p"] + [".0"])) if t["args"][1]["k"] in ("copy", "move") else set()
-        keep_prefix = any(v[0] == "call" and v[1].endswith("Cell::<T>::get") for o in src0 for v in o.via) and not any(
-            v[0] == "call" and "adding" in v[1] for o in src0 for v in o.via)
-        ok_set = bool(inc) and all(c not in (0, None) for c in consts) and keep_prefix and any(
-            v[0] == "call" and v[1].endswith("Cell::<T>::get") for o in src1 for v in o.via)
-        detail = "counter increments %s, prefix kept: %s" % (consts, keep_prefix)
+        for c in comps:
+            src = prov.of_operand(gen, dict(t["args"][1], p=t["args"][1]["p"] + [c])) if t["args"][1]["k"] in ("copy", "move") else set()
+            inc = [v for o in src for v in o.via if v[0] == "call" and re.search(ADD, v[1])]
+            from_get = any(v[0] == "call" and v[1].endswith("Cell::<T>::get") for o in src for v in o.via)
+            if inc and from_get:
+                counter = c
+                for v in inc:
+                    if v[2] < len(gen.blocks) and gen.blocks[v[2]]["term"].get("callee") == v[1]:
+                        consts.append(const_value(gen, gen.term(v[2])["args"][1]))
+            elif from_get and all(o.path[-1:] == (c,) for o in src if o.kind == "call" and str(o.key).endswith("Cell::<T>::get")) and \
+                    not any(v[0] in ("binop",) or (v[0] == "call" and re.search(ADD, v[1])) for o in src for v in o.via):
+                prefixes.append(c)
+    ok_set = counter is not None and bool(prefixes) and bool(consts) and all(c not in (0, None) for c in consts) and len(prefixes) == len(comps) - 1
+    detail = "state components %s: counter %s advanced by %s, kept: %s" % (comps, counter, consts, prefixes)
     ctx.check(ok_set and len(sets) == 1 and len(gets) == 1, rule, gen.path, gen.span,
               "every call stores (prefix, counter + c) back with a non-zero constant c (the counter advances on each id)", detail,
               detail or "no Cell::set of the advanced counter", extra="advance")
     cons = [c for c in constructions(facts, "fastrace::collector::id::SpanId", crates=["fastrace"]) if c[0] is gen]
     ok_id = False
     d2 = ""
-    if cons:
+    if cons and counter is not None:
         _, b, s, f = cons[0]
         src = prov.of_operand(gen, list(f.values())[0])
-        hi = [o for o in src if ("Shl", 32) in [(v[1], v[2]) for v in o.via if v[0] == "binop"]]
-        lo = [o for o in src if o not in hi and any(v[0] == "call" and re.search(r"wrapping_add$", v[1]) for v in o.via)]
-        ok_id = any(o.path[-1:] == (".0",) for o in hi) and bool(lo) and not any(o.path[-1:] == (".0",) for o in lo) and \
+        hi = [o for o in src if ("Shl", 32) in [(v[1], v[2]) for v in o.via if v[0] == "binop"] and o.kind != "const"]
+        lo = [o for o in src if o not in hi and any(v[0] == "call" and re.search(ADD, v[1]) for v in o.via) and o.kind != "const"]
+        named_hi = [o for o in hi if o.path[-1:] and o.path[-1] in comps]
+        named_lo = [o for o in lo if o.path[-1:] and o.path[-1] in comps]
+        ok_id = bool(named_hi) and all(o.path[-1] in prefixes for o in named_hi) and bool(lo) and all(o.path[-1] == counter for o in named_lo) and \
             any(v[0] == "binop" and v[1] == "BitOr" for o in src for v in o.via)
         d2 = "high half %s, low half %s" % (origin_strs(hi, 3), origin_strs(lo, 3))
     ctx.check(ok_id, rule, gen.path, gen.span, "the id is (prefix << 32) | advanced counter", d2, d2 or "no SpanId construction", extra="compose")
-    nid = facts.fn("fastrace::collector::id::SpanId::next_id")
     if nid is not None:
-        fb = [c for c in facts.closures_of(nid) if c is not gen]
-        rnd = any(sites_star(facts, c, lambda g, t: bool(re.search(r"rand::random$", t["callee"]))) for c in fb)   # directly or through SpanId::random()
+        def is_rand(g, t):
+            return bool(re.search(r"rand::random$", t["callee"]))
+        fb = [c for c in bodies if c is not gen]
+        rnd = any(sites_star(facts, c, is_rand) for c in fb) or (gen is not nid and bool(sites_star(facts, nid, is_rand)))
         ctx.check(rnd, rule, nid.path, nid.span, "when the thread-local generator is gone (teardown) a random id is used instead of a constant", "",
-                  "fallback closure does not call rand::random", extra="fallback")
-    init = [f for p, f in facts.fns.items() if p.startswith("fastrace::collector::id::LOCAL_ID_GENERATOR::")]
-    rnd2 = any(f.calls_re(r"rand::random$") for f in init)
-    ctx.check(rnd2, rule, "fastrace::collector::id::LOCAL_ID_GENERATOR", "-", "the per-thread prefix is drawn at random when the thread first traces", "",
-              "initialiser does not call rand::random", extra="prefix")
+                  "the failure path of try_with does not reach rand::random", extra="fallback")
+    # the per-thread state's initialiser draws the prefix at random
+    keys = set()
+    for f in bodies:
+        for b in f.calls_re(r"thread::local::LocalKey::<T>::try_with$", cleanup=False):
+            for o in prov.of_operand(f, f.term(b)["args"][0]):
+                if o.kind == "static":
+                    keys.add(str(o.key).split("::{", 1)[0])      # the thread_local! item, not std's inner VAL static
+    if not keys:
+        keys = {p.split("::{", 1)[0] for p, stt in facts.statics.items() if p.startswith("fastrace::collector::id::") and "Cell<" in stt["ty"]}
+    init = [f for p, f in facts.fns.items() if any(p.startswith(k + "::") for k in keys)]
+    rnd2 = any(sites_star(facts, f, lambda g, t: bool(re.search(r"rand::random$", t["callee"]))) for f in init)
+    ctx.check(rnd2, rule, sorted(keys)[0] if keys else "fastrace::collector::id", "-", "the per-thread prefix is drawn at random when the thread first traces", "",
+              "initialiser of %s does not call rand::random" % sorted(keys), extra="prefix")
 
 
 def setter_shape(facts, prov, fn, adt_path, fld):
